@@ -174,7 +174,7 @@ class Gen:
                                           rdep=o["rdep_rel"] and r.random() < 0.3))
         # the same ordered pair related twice: add_conflict and schedule_before on (a, c), declared in either order
         if o["p_dblrel"] > 0 and nb >= 2 and r.random() < o["p_dblrel"]:
-            a, c = r.sample(allb, 2)
+            a, c = r.sample(trans, 2) if (nt >= 2 and r.random() < 0.7) else r.sample(allb, 2)
             if rank[a] > rank[c]:
                 a, c = c, a
             two = [dict(a=a, b=c, kind="conflict", prio=r.choice(["U", "U", "L"]), rdep=False),
